@@ -18,7 +18,9 @@ MANIFEST = {
     "technique": "panic-site obligations generated for every index/slice/deref/div/panic instruction of the real go/ssa, discharged under contracts' invariants; constructor-establishes-invariant lemma; z3",
     "design_ref": "DESIGN.md section 4 C11",
 }
-NP = keep_labels(set(), kinds=("no-panic", "no-exit", "requires", "loop-entry", "loop-preserve"))
+# no-panic sites plus the obligations that make the invariants they rely on inductive
+NP = keep_labels({"valid", "ok", "inv", "xinv", "ramrange", "ram", "lo", "hi", "disarmed", "pla", "banks", "pages"},
+                 kinds=("no-panic", "no-exit", "requires", "loop-entry", "loop-preserve"))
 
 
 def construction(ctx, eng, ce):
@@ -182,6 +184,12 @@ def tasks(ctx):
         for op in ("Read", "Write"):
             f = "(*memory.%s).%s" % (m, op)
             ts.append(Task(f, f, keep=NP))
+    ts.append(Task("(*memory.mbc1).updateBanks", "(*memory.mbc1).updateBanks", keep=NP))
+    ov1 = {"Audio.ch2.sweep": nil_value, "Mapper.mbc": mc.mbc_override("mbc1")}
+    ts.append(Task(mc.M + "Write[invariants]", mc.M + "Write", overrides=ov1, extra_requires=[mbc_valid("mbc1")], keep=NP))
+    for f in ["(*timer.Timer).WriteDIV", "(*timer.Timer).WriteTIMA", "(*timer.Timer).WriteTMA", "(*timer.Timer).WriteTAC", "(*memory.rtc).increment",
+              "(*ppu.PPU).enable", "(*ppu.PPU).disable", "(*ppu.PPU).checkOverlappingSprite", "(*oam.OAM).startDMA"]:
+        ts.append(Task(f, f, keep=NP))
     for f in ["(*memory.rtc).read", "(*memory.rtc).write", "(*memory.rtc).tick", "(*timer.Timer).EndMachineCycle", "(*controller.Controller).ButtonAction",
               "(*oam.OAM).Corrupt", "(*oam.OAM).Read", "(*oam.OAM).Write", "(*oam.OAM).PPURead", "(*oam.OAM).TriggerWriteCorruption",
               "(*ppu.PPU).EndMachineCycle", "(*ppu.PPU).WriteLCDC", "(*audio.Audio).tickClock", "(*audio.Audio).tickFrameSequencer",
